@@ -235,6 +235,34 @@ def handle (j : Json) : P Json := do
       | .refusedBeforeApply e => pure (Json.mkObj [("outcome", "refused-before-apply"), ("err", e.tag)])
       | .refusedAfterApply e => pure (Json.mkObj [("outcome", "refused-after-apply"), ("err", e.tag)])
       | .accepted => pure (Json.mkObj [("outcome", "accepted")])
+  | "time" =>
+    let fn ← fs j "fn"
+    let start ← jInt (← fld j "start")
+    let ser (r : Series) : Json := Json.mkObj [("ks", Json.arr (r.map (fun p => Json.num p.1)).toArray),
+                                              ("vs", Json.arr (r.map (fun p => Json.str (ratStr p.2))).toArray)]
+    let optList (k : String) : P (Option (List Int)) := match fldOpt j k with
+      | some a => (do pure (some (← (← jArr a).toList.mapM jInt)))
+      | none => pure none
+    match fn with
+    | "list" => do
+      let vs ← (← jArr (← fld j "vals")).toList.mapM jRat
+      pure (ser (Efp.TimeBuilders.fromList start vs))
+    | "freq" => do
+      let n ← jInt (← fld j "n")
+      let vol ← jRat (← fld j "volume")
+      let f ← match (← fs j "freq") with
+        | "daily" => pure Efp.TimeBuilders.Freq.daily | "weekly" => pure .weekly
+        | "monthly" => pure .monthly | "yearly" => pure .yearly | x => throw s!"bad freq {x}"
+      pure (ser (Efp.TimeBuilders.fromFrequency start n.toNat vol f (← optList "ad") (← optList "hs")))
+    | "daily" => do
+      let n ← jInt (← fld j "n")
+      let vol ← jRat (← fld j "volume")
+      let hs ← (← jArr (← fld j "hours")).toList.mapM jInt
+      pure (ser (Efp.TimeBuilders.fromDailyVolume start n.toNat vol hs))
+    | "linear" => do
+      let n ← jInt (← fld j "n")
+      pure (ser (Efp.TimeBuilders.linearGrowth start n.toNat (← jRat (← fld j "a")) (← jRat (← fld j "b"))))
+    | _ => throw s!"unknown time fn {fn}"
   | "tz" =>
     let z ← jZone (← fld j "zone")
     let s ← jSeries (← fld j "s")
